@@ -345,13 +345,10 @@ static void child_prepare(const Plan& pl, RunCtx& rc, int only_task) {
   cfg.max_events = 2000000000ull;
   cfg.stack_bytes = 16u << 20;
   sim::run(cfg, prep_body, &pa, g_prep_res);
-  if (g_prep_res.unsupported || g_prep_res.deadlock || g_prep_res.budget_exhausted || g_prep_res.daemon_threads) {
-    // (threads that outlive the preparation run cannot be carried over into the next run)
+  if (g_prep_res.unsupported || g_prep_res.deadlock || g_prep_res.budget_exhausted) {
     g_shm->res.unsupported = 1;
     snprintf(g_shm->res.unsupported_what, sizeof g_shm->res.unsupported_what, "preparation: %s",
-             g_prep_res.unsupported ? g_prep_res.unsupported_what
-             : g_prep_res.deadlock  ? "deadlock"
-             : g_prep_res.budget_exhausted ? "event budget" : "threads left running");
+             g_prep_res.unsupported ? g_prep_res.unsupported_what : g_prep_res.deadlock ? "deadlock" : "event budget");
     _exit(0);
   }
   g_shm->prep_threads = g_prep_res.dynamic_threads;
@@ -368,6 +365,7 @@ static void child_prepare(const Plan& pl, RunCtx& rc, int only_task) {
   cfg.ntasks = 1;
   cfg.strategy = sim::S_SERIAL;
   cfg.max_events = 400000000ull;
+  cfg.adopt_threads = true;  // a worker pool the preparation started keeps serving
   g_shm->stage = 3;
   sim::run(cfg, task_body, &rc, g_shm->res);
   g_shm->res.switch_log = nullptr;
@@ -406,6 +404,7 @@ static void child_prepare(const Plan& pl, RunCtx& rc, int only_task) {
   cfg.sw_buf = g_shm->sw;  // in shared memory: the schedule survives a crash of this process
   cfg.sw_cap = kShmSwitches;
   cfg.sw_count = &g_shm->n_sw;
+  cfg.adopt_threads = true;  // a worker pool the preparation started keeps serving
 
   g_shm->stage = 3;
   sim::run(cfg, task_body, &rc, g_shm->res);
@@ -593,7 +592,11 @@ static RunOutcome execute_run(const Plan& pl, const Refs& refs) {
     }
     d += b;
   }
-  if (res.unsupported) {
+  if (res.unsupported && strstr(res.unsupported_what, "thread limit")) {
+    // more simultaneously live threads than the simulator has slots for: set aside, like a wall-clock timeout
+    ro.cls |= C_BUDGET;
+    d += "\"thread_limit\":1,";
+  } else if (res.unsupported) {
     ro.cls |= C_MACHINERY;
     d += std::string("\"unsupported\":\"") + res.unsupported_what + "\",";
   }
@@ -980,6 +983,9 @@ static std::string run_json(const char* tag, uint64_t seed, uint64_t widx, uint6
            hex64(res.sched_hash).c_str(), hex64(res.conflict_sig).c_str(), res.conflict_events, res.races_total,
            res.guard_init_in_sim, res.guard_block, res.preempt_in_init, res.mutex_block, res.fault_fired[0], res.fault_fired[1],
            res.fault_fired[2], res.fair_mode_entered, res.events_by_class[1], res.events_by_class[2], g_shm->pool_objects, wall);
+  s += b;
+  snprintf(b, sizeof b, ",\"lib_threads\":[%" PRIu64 ",%" PRIu64 ",%" PRIu64 ",%" PRIu64 "]", g_shm->prep_threads, res.dynamic_threads,
+           res.adopted_threads, res.daemon_threads);
   s += b;
   // event kinds
   s += ",\"kinds\":[";
